@@ -159,7 +159,11 @@ def execScript (tcs : List TC) (script : Status) (outs : List Out) : Option Exec
     match outs.findIdx? (fun o => o.status = .code skip) with
     | some i => some (.skipped i)
     | none => some (.timeout true 0 [⟨.timeout, false, false⟩])
-  | .unknown => none
+  -- ... and since fix 384369f also over a shell that was killed
+  | .unknown =>
+    match outs.findIdx? (fun o => o.status = .code skip) with
+    | some i => some (.skipped i)
+    | none => none
   | _ => afterStatus
 
 /-- one reported outcome: index of the test case and its verdict -/
